@@ -215,3 +215,8 @@ func EchoOnce(ctx context.Context, conn *quic.Conn, plan, size, uniSize int) err
 	}
 	return nil
 }
+
+// EchoOnceNoUni is EchoOnce with a small payload and no unidirectional stream.
+func EchoOnceNoUni(ctx context.Context, conn *quic.Conn, plan int) error {
+	return EchoOnce(ctx, conn, plan, 600, -1)
+}
